@@ -632,7 +632,7 @@ def main(ck):
   ck.rule = RULE
   ck.assumptions = ASSUMPTIONS
   nshards = int(os.environ.get('C43_SHARDS', 3 if ck.quick else 6))
-  extra = mjxshard.run(ck, 'c43', nshards, timeout=(600 if ck.quick else 3600))
+  extra = mjxshard.run(ck, 'c43', nshards, timeout=(1800 if ck.quick else 5400))
   worst = mjxshard.merge_max(extra.get('worst', []))
   ck.extra['worst_rel_err'] = {k: float('%.3g' % v) for k, v in sorted(worst.items())}
   ck.extra['state_status'] = mjxshard.merge_sum(extra.get('status', []))
